@@ -21,7 +21,7 @@ def build(tier, only, chk):
         src, extra = L.c19_tunnel(n, tscf, udp, fd, fixed)
         us = dict(WALKER)
         us.update({'recv.0': 1502, 'write.0': 80, 'new_packet.0': n + 2, 'harness.0': 1502, 'harness.1': 1502,
-                   'harness.2': 1502, 'harness.3': 1502, 'harness.4': 1502, 'talker_main.0': 3,
+                   'harness.2': 1502, 'harness.3': 1502, 'harness.4': 1502, 'talker_main.0': n + 2,
                    'talker_main.1': n + 2, 'sendto.0': 1502})
         defs = ['VP_DG_MAX=%d' % size, 'COVESA_OPEN1722_VERIF_MAX_PDU_SIZE=%d' % size] if size else []
         jobs.append(Job(name, src, LIB, incs=['examples'], extra_sources=extra, unwind=70, unwindset=us,
